@@ -596,14 +596,44 @@ func ruleOU3(c *Ctx) {
 			}
 			outs := c.fieldStoresOfType(rs, "ergo.sequenceEdgeOutput")
 			okF, okT := false, false
+			fromEdges := func(b ssa.Value, src ssa.Value) bool { return src != nil && derivesFrom(b, resolve(src)) }
 			for _, v := range outs["FromID"] {
-				if b, n, okf := fieldLoad(resolve(v)); okf && n == "FromID" && edgesArg != nil && derivesFrom(b, resolve(edgesArg)) {
+				if b, n, okf := fieldLoad(resolve(v)); okf && n == "FromID" && fromEdges(b, edgesArg) {
 					okF = true
 				}
 			}
 			for _, v := range outs["ToID"] {
-				if b, n, okf := fieldLoad(resolve(v)); okf && n == "ToID" && edgesArg != nil && derivesFrom(b, resolve(edgesArg)) {
+				if b, n, okf := fieldLoad(resolve(v)); okf && n == "ToID" && fromEdges(b, edgesArg) {
 					okT = true
+				}
+			}
+			if len(outs) == 0 && edgesArg != nil {
+				// the reply edges may be built by a helper from the same edge slice
+				for _, call := range callsIn(rs) {
+					h := call.Common().StaticCallee()
+					if h == nil || !c.InModule(h) || h.Blocks == nil || call == wl {
+						continue
+					}
+					pi := -1
+					for i, a := range call.Common().Args {
+						if c.canon(a) == c.canon(edgesArg) {
+							pi = i
+						}
+					}
+					if pi < 0 || pi >= len(h.Params) {
+						continue
+					}
+					houts := c.fieldStoresOfType(h, "ergo.sequenceEdgeOutput")
+					for _, v := range houts["FromID"] {
+						if b, n, okf := fieldLoad(resolve(v)); okf && n == "FromID" && derivesFrom(b, h.Params[pi]) {
+							okF = true
+						}
+					}
+					for _, v := range houts["ToID"] {
+						if b, n, okf := fieldLoad(resolve(v)); okf && n == "ToID" && derivesFrom(b, h.Params[pi]) {
+							okT = true
+						}
+					}
 				}
 			}
 			ok = okF && okT
